@@ -5,6 +5,9 @@
 mod render;
 #[path = "../machine/gen.rs"]
 mod gen_programs;
+#[path = "../modules/driver.rs"]
+#[allow(dead_code)]
+mod driver;
 
 use pvh::alpha;
 use pvh::util::{par_map, read_lines, write_lines};
@@ -47,13 +50,17 @@ fn compile_isolated(source: &str) -> Value {
 }
 
 fn compile_isolated_once(source: &str, limit_s: u64) -> Value {
+    compile_child_once("compile-one", source, limit_s)
+}
+
+fn compile_child_once(mode: &str, source: &str, limit_s: u64) -> Value {
     // the running image, even if the file was replaced by a rebuild meanwhile (`current_exe()` would then name
     // a deleted file and the wrapper would fail with status 127)
     let exe = format!("/proc/{}/exe", std::process::id());
     let child = Command::new("timeout")
         .arg(limit_s.to_string())
         .arg(exe)
-        .arg("compile-one")
+        .arg(mode)
         .stdin(Stdio::piped())
         .stdout(Stdio::piped())
         .stderr(Stdio::piped())
@@ -74,8 +81,118 @@ fn compile_isolated_once(source: &str, limit_s: u64) -> Value {
     }
 }
 
+/// The canonical text of a program (one declaration after the other, nothing indented) split over two files: `lib.pn`
+/// holds every declaration but `main`, each marked `pub`; `main.pn` imports it (docs/features.md "Imports": all function
+/// signatures, structures and constants marked pub).  None if the text has no `main` or nothing else.
+fn split_sources(canonical: &str, main_first: bool) -> Option<Vec<(String, String)>> {
+    let starts = |l: &str| {
+        l.starts_with("fn ") || l.starts_with("struct ") || l.starts_with("const ")
+            || ["word8 ", "word16 ", "word32 ", "word64 ", "word128 "].iter().any(|w| l.starts_with(w))
+    };
+    let mut chunks: Vec<Vec<&str>> = Vec::new();
+    for line in canonical.lines() {
+        if starts(line) || chunks.is_empty() {
+            chunks.push(Vec::new());
+        }
+        chunks.last_mut().unwrap().push(line);
+    }
+    let mut lib = String::new();
+    let mut main = String::from("import \"lib.pn\";\n");
+    let (mut n_lib, mut n_main) = (0, 0);
+    // main_first: constants that only `main` mentions stay in main.pn (private), and main.pn is compiled first
+    let is_word = |text: &str, name: &str| {
+        text.match_indices(name).any(|(at, _)| {
+            let before = text[..at].chars().next_back();
+            let after = text[at + name.len()..].chars().next();
+            !before.map(|c| c.is_alphanumeric() || c == '_').unwrap_or(false) && !after.map(|c| c.is_alphanumeric() || c == '_').unwrap_or(false)
+        })
+    };
+    if main_first {
+        // constants nobody mentions: a private constant that is never used changes nothing in its own module and nothing
+        // at all in another module ("compiling one module never changes the result for another except through its imports")
+        for (k, (t, v)) in [("i32", "12345i32"), ("u8", "77u8"), ("i64", "-99i64"), ("bool", "true"), ("usize", "4242usize"), ("i8", "-7i8"), ("u64", "31337u64"), ("i16", "-1234i16")]
+            .iter()
+            .enumerate()
+        {
+            main.push_str(&format!("const zz_unused_{k}: {t} = {v};\n"));
+        }
+    }
+    let others: String = chunks.iter().filter(|c| !c[0].starts_with("fn main(")).map(|c| c.join("\n")).collect::<Vec<_>>().join("\n");
+    for c in &chunks {
+        if main_first && c[0].starts_with("const ") {
+            let name = c[0]["const ".len()..].split(':').next().unwrap_or("").trim();
+            let elsewhere = others.replacen(&c.join("\n"), "", 1);
+            if !name.is_empty() && !is_word(&elsewhere, name) {
+                main.push_str(&c.join("\n"));
+                main.push('\n');
+                continue;
+            }
+        }
+        if c[0].starts_with("fn main(") {
+            main.push_str(&c.join("\n"));
+            main.push('\n');
+            n_main += 1;
+        } else if starts(c[0]) {
+            lib.push_str("pub ");
+            lib.push_str(&c.join("\n"));
+            lib.push('\n');
+            n_lib += 1;
+        } else {
+            return None;
+        }
+    }
+    if n_main != 1 || n_lib == 0 {
+        return None;
+    }
+    if main_first {
+        Some(vec![("main.pn".to_string(), main), ("lib.pn".to_string(), lib)])
+    } else {
+        // the library first: it is compiled before the module that uses it
+        Some(vec![("lib.pn".to_string(), lib), ("main.pn".to_string(), main)])
+    }
+}
+
+fn compile_split_child() {
+    let mut text = String::new();
+    std::io::stdin().read_to_string(&mut text).unwrap();
+    let v: Value = serde_json::from_str(&text).expect("files json");
+    let files: Vec<(String, String)> = v["files"].as_array().unwrap().iter()
+        .map(|f| (f[0].as_str().unwrap().to_string(), f[1].as_str().unwrap().to_string())).collect();
+    alpha::install_quiet_panic_hook();
+    let o = driver::run_multi(&files, driver::Upto::Ir, false, false);
+    let diags: Vec<Value> = o.modules.iter().flat_map(|m| m.diags.iter().map(|d| json!([d.code, d.line, d.file]))).collect();
+    let lints: Vec<Value> = o.modules.iter().flat_map(|m| m.lints.iter().map(|d| json!([d.code, d.line, d.file]))).collect();
+    let mut out = json!({"ok": o.ok && o.panic.is_none(), "diags": diags, "lints": lints});
+    if let Some(p) = &o.panic {
+        out["panic"] = json!(p);
+    }
+    if let Some(ir) = &o.ir {
+        out["ir"] = json!(ir);
+    }
+    println!("{out}");
+}
+
 fn run_source(source: &str) -> Value {
-    let c = compile_isolated(source);
+    run_compiled(compile_isolated(source))
+}
+
+/// the program split over two files (see split_sources), compiled as `penne lib.pn main.pn` does and executed
+fn run_split(files: &[(String, String)]) -> Value {
+    let payload = json!({"files": files.iter().map(|(n, s)| json!([n, s])).collect::<Vec<_>>()}).to_string();
+    let mut r = compile_child_once("compile-split", &payload, 20);
+    for attempt in 0..2 {
+        let timed_out = r["crash"] == "timeout";
+        let killed = r["crash"] == "signal" && r["stderr"].as_str().map(|s| s.trim().is_empty()).unwrap_or(true);
+        if !timed_out && !killed {
+            break;
+        }
+        std::thread::sleep(std::time::Duration::from_millis(200));
+        r = compile_child_once("compile-split", &payload, if attempt == 0 { 120 } else { 300 });
+    }
+    run_compiled(r)
+}
+
+fn run_compiled(c: Value) -> Value {
     if c.get("toolerror").is_some() || c.get("crash").is_some() {
         return c;
     }
@@ -132,6 +249,18 @@ fn run(args: &[String]) {
             }
             rs.push(r);
         }
+        // one more variant: the same program split over two files (skipped with PVH_NO_SPLIT=1)
+        if std::env::var("PVH_NO_SPLIT").is_err() {
+            if let Some(files) = split_sources(&canonical, i % 2 == 1) {
+                let mut r = run_split(&files);
+                r["layout"] = json!(layouts.max(1));
+                r["split"] = json!(true);
+                if r.get("stdout") != rs.first().and_then(|x: &Value| x.get("stdout")) || r.get("exit") != rs.first().and_then(|x: &Value| x.get("exit")) {
+                    r["source"] = json!(files.iter().map(|(n, s)| format!("//// {n}\n{s}")).collect::<Vec<_>>().join("\n"));
+                }
+                rs.push(r);
+            }
+        }
         json!({"i": i, "source": canonical, "results": rs}).to_string()
     });
     write_lines(&args[1], &results);
@@ -144,6 +273,7 @@ fn main() {
     }
     match args[0].as_str() {
         "compile-one" => compile_one(),
+        "compile-split" => compile_split_child(),
         "run" => run(&args[1..]),
         "run-src" => {
             // each input line: {"src": "<penne source>"}; output: the result record of run_source
@@ -165,6 +295,26 @@ fn main() {
             let size: usize = args.get(4).and_then(|x| x.parse().ok()).unwrap_or(1);
             let progs: Vec<String> = (0..count).map(|i| gen_programs::program(seed, i as u64, size).to_string()).collect();
             write_lines(&args[3], &progs);
+        }
+        "sources" => {
+            // sources <count> <seed> <out.ndjson>: the generated programs as cases of the pipeline checks (C02 / C03 / C13):
+            // every generated program is well-formed, so its compilation has to end in success (expect.t = "valid")
+            let count: usize = args[1].parse().unwrap();
+            let seed: u64 = args[2].parse().unwrap();
+            let cases: Vec<String> = (0..count)
+                .map(|i| {
+                    let p = gen_programs::program(seed, i as u64, 1 + i % 2);
+                    let src = if i % 3 == 0 {
+                        render::program(&p, &mut render::Layout::canonical())
+                    } else {
+                        render::program(&p, &mut render::Layout::random(seed, i as u64))
+                    };
+                    json!({"id": format!("xmachine{i}"), "kind": "xmachine", "wasm": false, "origin": format!("machine program {seed}/{i}"),
+                           "mods": [{"name": "prog.pn", "src": src}], "expect": {"t": "valid"}})
+                    .to_string()
+                })
+                .collect();
+            write_lines(&args[3], &cases);
         }
         "show" => {
             // show <program-json | @file> [layout-seed layout-stream]
